@@ -83,8 +83,15 @@ class Factor:
                     tmpl[key] = [formal if x == val else x for x in tmpl[key]]
                     if all(x != formal for x in body):
                         self.add(name, [tmpl], args=[formal])   # parameterised macro
-                        self.forms.append("parameterised")
-                        return {name: {formal: val}}
+                        how = g.int(0, 2)
+                        if how == 0:
+                            self.forms.append("parameterised")
+                            return {name: {formal: val}}         # argument nested under the macro key
+                        if how == 1:
+                            self.forms.append("parameterised-sibling")
+                            return {name: None, formal: val}     # `- "@m":` / `  arg: v` (the spelling of the shipped rules)
+                        self.forms.append("parameterised-sibling-arg-first")
+                        return {formal: val, name: None}         # a mapping: the order of its keys must not matter
             if isinstance(body, list):
                 d = dict(it)
                 d[key] = [self.item(x, depth + 1) for x in body]
